@@ -607,8 +607,10 @@ func vFewCuts(on bool) { vfsFewCuts = on }
 
 // vPowerFail turns the crash into a power loss: every file independently either keeps its current
 // content or reverts to its content at its last sync (files never synced may vanish, unsynced removals
-// may be undone).
-func vPowerFail(dir string) {
+// may be undone). It reports whether the removal of a file was undone while the removal of a file
+// created later was kept (removals reaching the disk out of order).
+func vPowerFail(dir string) (unlinkReordered bool) {
+	undoneEarlier := false
 	for _, f := range vfsFiles {
 		if f.isDir || len(f.name) <= len(dir) || f.name[:len(dir)+1] != dir+"/" {
 			continue
@@ -618,11 +620,18 @@ func vPowerFail(dir string) {
 				continue // nothing unsynced
 			}
 		}
+		removed := !f.exists && f.dexists
 		if vChoose(2) == 1 {
 			f.data = append([]byte{}, f.ddata...)
 			f.exists = f.dexists
+			if removed {
+				undoneEarlier = true
+			}
+		} else if removed && undoneEarlier {
+			unlinkReordered = true
 		}
 	}
+	return unlinkReordered
 }
 
 
